@@ -199,6 +199,46 @@ def units(w):
         it.check("post:binding-holds-the-object-itself(no copy)", len(ent) == 1 and ent[0][1] is c["v"])
     U.append(Unit("functions.py::Environment.put", s_put, p_put, allowed=()))
 
+    def install_order(world):
+        from .c07 import install_elem_order
+        install_elem_order(world)
+
+    # destructuring (for-loop rows, def, assignment) reads the row: shorter rows are padded in a copy, never in place
+    def s_destr(kind, nid):
+        def setup(it):
+            row = V.list_sym(it, "row") if kind == "list" else V.set_of(it, [SElem(z3.Int(f"m{i}")) for i in range(2)], "row")
+            node = Obj(nodes["NodeFor"], {"identifiers": PList([f"v{i}" for i in range(nid)]), "expression": None, "block": None, "what": None, "pos": V.pos(it)})
+            node.fresh = False
+            return [node, row], {}, {"row": row, "old": row.fields["value"].sym if kind == "list" else None}
+        return setup
+
+    def p_destr(it, c, o):
+        it.check("frame:the-row-is-not-written (padding happens in a copy)", len(it.writes) == 0, detail=str([(type(x[0]).__name__, x[1]) for x in it.writes][:3]))
+        if c["old"] is not None:
+            it.check("frame:the-row's-spine-is-unchanged", c["row"].fields["value"].sym is c["old"])
+        if o.kind == "return":
+            it.check("post:at-least-as-many-values-as-loop-variables", True)
+    for kind in ("list", "set"):
+        for nid in (1, 2, 3):
+            U.append(Unit("nodes.py::NodeFor.destructure", s_destr(kind, nid), p_destr, name=f"nodes.py::NodeFor.destructure[frame, {kind} row, {nid} variables]",
+                          allowed=("CklRuntimeError",), prepare=install_order))
+
+    def s_destr_stmt(which):
+        def setup(it):
+            row = V.list_sym(it, "row")
+            fields = {"identifiers": PList(["a", "b", "c"]), "expression": S.node("e", row), "pos": V.pos(it)}
+            if which == "NodeDefDestructuring":
+                fields["info"] = ""
+            env = real_env(w, it, {"a": V.NULL, "b": V.NULL, "c": V.NULL})
+            return [Obj(nodes[which], fields), env], {}, {"row": row, "old": row.fields["value"].sym, "env": env}
+        return setup
+
+    def p_destr_stmt(it, c, o):
+        bad = [(type(x[0]).__name__, x[1]) for x in it.writes if (x[0] is c["row"] or x[0] is c["row"].fields["value"]) and x[1] != "info"]
+        it.check("frame:the-destructured-value-is-not-written", not bad and c["row"].fields["value"].sym is c["old"], detail=str(bad[:3]))
+    for which in ("NodeDefDestructuring", "NodeAssignDestructuring"):
+        U.append(Unit(f"nodes.py::{which}.evaluate", s_destr_stmt(which), p_destr_stmt, name=f"nodes.py::{which}.evaluate[frame]", allowed=("CklRuntimeError",)))
+
     # ValueList.addItems rebinds instead of extending (a later mutation of the result must not reach the source list)
     def s_additems(it):
         dst = V.list_of(it, [], "dst")
